@@ -256,6 +256,13 @@ def run_tcp_one(it):
                 if step == "disable" and proto.connection_state.current.name != "NOT_CONNECTED":
                     fail("not-NOT_CONNECTED-after-disable")
                     return
+                if step == "disable" and passive:
+                    s.advance(1.0)
+                    lst_ = net.listeners.get(5002)
+                    if lst_ is not None and not lst_.closed:
+                        # observation only (C09 does not speak about it): a disabled endpoint listens again -- the close handling
+                        # restarted the server thread after disable() had cleared the enabled flag
+                        rec["listening_after_disable"] = True
                 if step == "disable_then_enable":
                     s.advance(0.3)
             elif step == "wait":
@@ -265,7 +272,7 @@ def run_tcp_one(it):
 
     s = simrt.run(main, seed=it["seed"], policy=it["policy"], switch_prob=0.3, max_vtime=1e5, wall_timeout=120,
                   line_funcs=[tc.TcpConnection._start_receiver, tc.TcpConnection.disconnect, tc.TcpConnection._TcpConnection__receiver_thread,
-                              tsc.TcpServerConnection.disable,
+                              tsc.TcpServerConnection.disable, tsc.TcpServerConnection._disconnected,
                               tcc.TcpClientConnection.disable, tcc.TcpClientConnection._TcpClientConnection__connect_thread,
                               tcc.TcpClientConnection._TcpClientConnection__connect, tcc.TcpClientConnection._TcpClientConnection__idle,
                               tsc.TcpServerConnection._TcpServerConnection__server_thread],
@@ -406,6 +413,7 @@ def run(ctx: Ctx):
                            "sched_seed": r_["seed"], "connected_at_disable": "connect" in r_["steps"] and "peer_close" not in r_["steps"][-2:],
                            "what": f"{r_['side']} {r_['name']} ({r_['policy']}): {r_['clause']} after {r_['steps']}; thread errors {r_['thread_errors'][:1]}"})
     ctx.extra["tcp_lifecycle_runs"] = len(trecs)
+    ctx.extra["observation_listening_again_after_disable"] = sum(1 for r_ in trecs if r_.get("listening_after_disable"))
     ctx.rule = ("every byte offset of 4 inbound streams x {NOT SELECTED, SELECTED} x {peer close, disable(), close+reconnect+select} "
                 "x chunking x thread schedule policy on the real endpoint; non-trivial = distinct (stream, cut, state, fault)")
     ctx.assumptions += ["FakeConnection mirrors TcpConnection's close sequence (on_disconnecting -> close -> on_disconnected on "
